@@ -104,6 +104,86 @@ def replay_case(case):
   return None
 
 
+def exact_count(vec, tr, cr, gtol):
+  """MMCount!Declarative evaluated with unbounded integers (TLC's are 32-bit): the number of maps geo -> {neither,
+  treatment, control} respecting the classes is the coefficient of T^nt C^nc in the product of one factor per geo
+  (t: T, c: C, cx: 1+C, tx: 1+T, ct: T+C, ctx: 1+T+C); sum over the admissible (nt, nc)."""
+  factors = [[(1, 0)], [(0, 1)], [(0, 0), (0, 1)], [(0, 0), (1, 0)], [(1, 0), (0, 1)], [(0, 0), (1, 0), (0, 1)]]
+  poly = {(0, 0): 1}
+  for cls, k in enumerate(vec):
+    for _ in range(k):
+      nxt = {}
+      for (a, b), c in poly.items():
+        for da, db in factors[cls]:
+          key = (a + da, b + db)
+          nxt[key] = nxt.get(key, 0) + c
+      poly = nxt
+  total = 0
+  for (nt, nc), c in poly.items():
+    if nt < 1 or nc < 1:
+      continue
+    if tr[1] and not tr[0] <= nt <= tr[1]:
+      continue
+    if cr[1] and not cr[0] <= nc <= cr[1]:
+      continue
+    if gtol[1]:
+      p, q = gtol
+      if not (nc * q <= nt * (p + q) and nt * q <= nc * (p + q)):
+        continue
+    total += c
+  return total
+
+
+def big_cases(seed, count):
+  """Class-count vectors far beyond TLC's integers: up to 48 geos, design spaces beyond 2^53."""
+  import random
+  rng = random.Random(seed * 97 + 11)
+  out = []
+  for i in range(count):
+    n = rng.choice([24, 30, 36, 40, 44, 48])
+    if i % 3 == 0:
+      vec = [0, 0, 0, 0, 0, n]
+    else:
+      cuts = sorted(rng.randint(0, n) for _ in range(5))
+      vec = [cuts[0], cuts[1] - cuts[0], cuts[2] - cuts[1], cuts[3] - cuts[2], cuts[4] - cuts[3], n - cuts[4]]
+      vec[0], vec[1] = min(vec[0], 3), min(vec[1], 3)
+      vec[5] += n - sum(vec)
+    tr = rng.choice([(0, 0), (0, 0), (1, n // 2), (5, n)])
+    cr = rng.choice([(0, 0), (0, 0), (2, n // 2), (1, n)])
+    gtol = rng.choice([(0, 0), (0, 0), (1, 1), (1, 2), (2, 1)])
+    out.append({'vec': vec, 'tr': list(tr), 'cr': list(cr), 'gtol': list(gtol)})
+  return out
+
+
+def replay_big(case):
+  import pandas as pd
+  from matched_markets.methodology import geoeligibility, tbrmmdata, tbrmmdesignparameters, tbrmatchedmarkets
+  vec = case['vec']
+  n = sum(vec)
+  cls = []
+  for i, k in enumerate(vec):
+    cls += [i] * k
+  erows = [{'geo': 'G%d' % g, 'control': TRIPLES[c][0], 'treatment': TRIPLES[c][1], 'exclude': TRIPLES[c][2]}
+           for g, c in enumerate(cls)]
+  kw = dict(n_test=3, iroas=1.0)
+  if case['tr'][1]:
+    kw['treatment_geos_range'] = tuple(case['tr'])
+  if case['cr'][1]:
+    kw['control_geos_range'] = tuple(case['cr'])
+  if case['gtol'][1]:
+    kw['geo_ratio_tolerance'] = case['gtol'][0] / case['gtol'][1]
+  try:
+    par = tbrmmdesignparameters.TBRMMDesignParameters(**kw)
+    data = tbrmmdata.TBRMMData(panel(n), 'response', geoeligibility.GeoEligibility(pd.DataFrame(erows)))
+    count = tbrmatchedmarkets.TBRMatchedMarkets(data, par).count_max_designs()
+  except Exception as e:  # pylint: disable=broad-except
+    return 'CallsAreTotal', '%s: %s' % (type(e).__name__, e)
+  want = exact_count(vec, case['tr'], case['cr'], case['gtol'])
+  if count != want or isinstance(count, float):
+    return 'CountEqualsDesignSpace', 'count_max_designs() = %r, the declarative count is %d (class counts %r)' % (count, want, vec)
+  return None
+
+
 def run(res):
   thorough = res.tier == 'thorough'
   design_n, emit_n, mod = (6, 6, 12) if thorough else (4, 5, 24)
@@ -119,7 +199,22 @@ def run(res):
   cases = re_.json_lines()
   if len(cases) < 50:
     raise tlc.MachineryError('too few emitted cases: %d' % len(cases))
+  # the unbounded-integer evaluator of the declarative count must agree with TLC wherever TLC can count
+  for case in cases:
+    if exact_count(case['vec'], case['tr'], case['cr'], case['gtol']) != case['declarative']:
+      raise tlc.MachineryError('exact_count disagrees with MMCount!Declarative on %r' % case)
   results = par_mod.pmap(replay_case, cases)
+  big = big_cases(res.seed, 160 if thorough else 32)
+  big_results = par_mod.pmap(replay_big, big, chunksize=1)
+  beyond = 0
+  for case, bad in zip(big, big_results):
+    res.case_seen(('big', tuple(case['vec']), tuple(case['tr']), tuple(case['cr']), tuple(case['gtol'])))
+    res.traces += 1
+    beyond += exact_count(case['vec'], case['tr'], case['cr'], case['gtol']) > 2 ** 53
+    if bad and len(res.violations) < 25:
+      res.violate(bad[0], {'big': True, 'case': case}, bad[1])
+  res.extra['large_panels_replayed'] = len(big)
+  res.extra['large_panels_beyond_2_53'] = beyond
   nonzero = 0
   for case, bad in zip(cases, results):
     res.case_seen((tuple(case['vec']), tuple(case['tr']), tuple(case['cr']), tuple(case['gtol'])))
@@ -139,7 +234,7 @@ def run(res):
   insts, _, _ = mm.run_search_clauses(res, 'C11', count=(600 if thorough else 90))
   mm.run_step_validation(res, insts, 'C11')
   res.exhaustive = False
-  res.rule = ('TLC: all class-count vectors with total <= %d x 6 treatment ranges x 6 control ranges x 5 tolerances, three '
+  res.rule = ('large panels (24-48 geos, design spaces beyond 2^53) are compared with the declarative count evaluated in unbounded integers, an evaluator that is first checked against TLC on every emitted case; TLC: all class-count vectors with total <= %d x 6 treatment ranges x 6 control ranges x 5 tolerances, three '
               'definitions compared on each; replay: the residue class (hash %% %d = seed %% %d) of the instances with '
               'total <= %d; distinct = distinct (vector, ranges, tolerance); non-trivial = design space non-empty '
               '(replayed_nonempty)') % (design_n, mod, mod, emit_n)
@@ -148,7 +243,10 @@ def run(res):
 
 
 def replay(res, blob):
-  bad = replay_case(blob['case']['case'])
+  if blob['case'].get('kind') == 'steps':
+    from harness import mm
+    return mm.replay_case(res, blob)
+  bad = replay_big(blob['case']['case']) if blob['case'].get('big') else replay_case(blob['case']['case'])
   res.traces += 1
   res.case_seen('replay')
   if bad:
